@@ -52,7 +52,7 @@ def handle (args : List String) : String :=
       let e : Env := { cancelAt := 1000000000, cancelAtom := if k = 0 then 1000000000 else k,
                        oracle := oracleOf (if bits = "-" then "" else bits) }
       match exec e fuel sk St.init with
-      | some st => "log=" ++ showLog st.log ++ " items=" ++ toString st.items ++ " cancelled=" ++ (if st.fatal then "1" else "0")
+      | some st => "log=" ++ showLog st.log ++ " items=" ++ toString st.items ++ " cancelled=" ++ (if reported e st then "1" else "0")
       | none => "running"
     | _, _, _ => "bad-op"
   | "bound" :: toks =>
